@@ -244,10 +244,7 @@ def check_c19(c):
     # the generated data and the reflection theorem are compiled here only (they are not part of
     # the shared build, so a tree that breaks C19 cannot break the other properties' builds)
     sh("coq_makefile -f _CoqProject -o Makefile && timeout 3000 make -j16", cwd=COQ, timeout=3100)
-    rc, out = sh("timeout 600 coqc -R . RT gen/EffectsData.v", cwd=COQ, timeout=700)
-    if rc != 0:
-        c.notes.append("gen/EffectsData.v does not compile: " + out[-1500:])
-    coq_ok = c.coq_stage(["Properties/C19.v"], ["Proofs/EffectsProofs.v"]) and rc == 0
+    coq_ok = c.coq_stage(["Properties/C19.v"], ["Proofs/EffectsProofs.v"], pre_files=["gen/EffectsData.v"])
     # validation: mixed concurrent reads under the race detector
     races = ""
     res = {"evaluations": 0, "tie_mismatch": [], "oracle_bad": [], "distinct_nontrivial": 0, "by_cmd": {}}
